@@ -397,3 +397,43 @@ Proof.
       rewrite <- EN. rewrite split_dot_digits by exact HD. cbn [rev app]. rewrite fmt_nat_parse_nat.
       rewrite frac_digits_map by exact HF. reflexivity.
 Qed.
+
+(* ------------------------------------------------------------------ *)
+(* 9. Batching rows into INSERT statements loses and reorders nothing, for every batch size and
+   every row list. *)
+Lemma concat_chunk_go {A} (n : nat) (l : list A) : forall cur k, concat (chunk_go n l cur k) = rev cur ++ l.
+Proof.
+  induction l as [|x t IH]; intros cur k.
+  - cbn [chunk_go]. destruct cur as [|c cur']; [reflexivity|]. cbn [concat]. rewrite !app_nil_r. reflexivity.
+  - cbn [chunk_go]. destruct k as [|k'].
+    + cbn [concat]. rewrite IH. reflexivity.
+    + rewrite IH. cbn [rev]. rewrite <- app_assoc. reflexivity.
+Qed.
+
+Theorem concat_chunks : forall {A} (n : nat) (l : list A), concat (chunks n l) = l.
+Proof. intros A n l. unfold chunks. rewrite concat_chunk_go. reflexivity. Qed.
+
+(* no statement holds more than n tuples (n > 0) *)
+Lemma chunk_go_bound {A} (n : nat) (l : list A) : (0 < n)%nat -> forall cur k, (length cur + k = n)%nat ->
+  Forall (fun ch => (length ch <= n)%nat) (chunk_go n l cur k).
+Proof.
+  intros Hn. induction l as [|x t IH]; intros cur k Hk.
+  - cbn [chunk_go]. destruct cur; [constructor|]. constructor; [rewrite rev_length; lia | constructor].
+  - cbn [chunk_go]. destruct k as [|k'].
+    + constructor; [rewrite rev_length; lia|]. apply IH. cbn [length]. lia.
+    + apply IH. cbn [length]. lia.
+Qed.
+Theorem chunks_bound : forall {A} (n : nat) (l : list A), (0 < n)%nat -> Forall (fun ch => (length ch <= n)%nat) (chunks n l).
+Proof. intros A n l Hn. unfold chunks. apply chunk_go_bound; [exact Hn | reflexivity]. Qed.
+
+(* the model's own observation of any row count passes the batch oracle: the tuple counts add up *)
+Lemma nsum_lengths {A} (L : list (list A)) : nsum (map (fun ch => N.of_nat (length ch)) L) = N.of_nat (length (concat L)).
+Proof.
+  induction L as [|ch L IH]; [reflexivity|]. cbn [map nsum fold_right concat]. fold (nsum (map (fun ch => N.of_nat (length ch)) L)).
+  rewrite IH, app_length. lia.
+Qed.
+Theorem oracle_on_model_batch : forall n, oracle (CBatch n, OBatch (model_counts n) 0 0 false) = true.
+Proof.
+  intros n. cbn [oracle negb andb N.eqb]. unfold model_counts. rewrite nsum_lengths, concat_chunks, repeat_length, N2Nat.id.
+  apply N.eqb_refl.
+Qed.
